@@ -18,7 +18,7 @@ let event_str = function
   | EComplete (k, v) -> Printf.sprintf "complete %s %s" (kstr k) (vstr (Some v))
   | EBuildStart k -> "buildstart " ^ kstr k
   | EResult (v, failed) -> "result " ^ (if failed then "EMPTY" else vstr v)
-  | ECycleReported p -> "cycle " ^ String.concat " " (List.map kstr p)
+  | ECycleReported p -> String.concat " " ("cycle" :: List.map kstr p)
   | ERestart -> "restart"
 
 let parse_rule toks =
@@ -42,21 +42,21 @@ let parse_rule toks =
          | _ -> ())) toks;
   ({ r_sig = !sg; r_obs = !ob; r_req = !req; r_single = !single; r_follow = !follow; r_br = !br; r_disc = !disc }, !od)
 
-(* completion schedule of build number b from the implementation trace: element i = keys completed before iteration i *)
-let schedule_of_trace (tr : string list) (b : int) : n list list =
-  let tbl : (int, n list) Hashtbl.t = Hashtbl.create 16 in
-  let inb = ref false and it = ref (-1) and aw = ref false and mx = ref 0 in
+(* completion schedule of build number b from the implementation trace: element i = (keys completed at the top of
+   iteration i, keys completed while the engine was blocked at the end of iteration i); has_marks: the trace carries markers *)
+let schedule_of_trace (tr : string list) (b : int) : (n list * n list) list * bool =
+  let tbl : (int * bool, n list) Hashtbl.t = Hashtbl.create 16 in
+  let inb = ref false and it = ref 0 and aw = ref false and mx = ref 0 and marks = ref false in
   List.iter (fun l -> match String.split_on_char ' ' l with
-      | "build" :: n :: _ -> inb := (int_of_string n = b); it := -1; aw := false
+      | "build" :: n :: _ -> inb := (int_of_string n = b); it := 0; aw := false
       | "result" :: _ -> inb := false
-      | "iter" :: n :: _ when !inb -> it := int_of_string n; aw := false
+      | "iter" :: n :: _ when !inb -> it := int_of_string n; aw := false; marks := true; mx := max !mx !it
       | "wait" :: _ when !inb -> aw := true
       | "complete" :: k :: _ when !inb ->
-        let tgt = max 0 (if !aw then !it + 1 else !it) in
-        mx := max !mx tgt;
-        Hashtbl.replace tbl tgt ((match Hashtbl.find_opt tbl tgt with Some l -> l | None -> []) @ [n_of_int (int_of_string k)])
+        Hashtbl.replace tbl (!it, !aw) ((match Hashtbl.find_opt tbl (!it, !aw) with Some l -> l | None -> []) @ [n_of_int (int_of_string k)])
       | _ -> ()) tr;
-  List.init (!mx + 1) (fun i -> match Hashtbl.find_opt tbl i with Some l -> l | None -> [])
+  let g i w = match Hashtbl.find_opt tbl (i, w) with Some l -> l | None -> [] in
+  (List.init (!mx + 1) (fun i -> (g i false, g i true)), !marks)
 
 let flag_of (d : dep) = (if d.d_single then 2 else 0) + (if d.d_order then 1 else 0)
 let by_key l = List.sort (fun (a, _) (b, _) -> compare (int_of_n a) (int_of_n b)) l
@@ -73,16 +73,23 @@ let () =
         let usedb = ref false and started = ref false and nbuild = ref 0 in
         let st = ref init_istate and printed = ref 0 in
         let graph = ref [] in
+        let markers = ref [] in                                (* (absolute log position, line) in order *)
         let flush_log () =
           let log = List.rev (!st).is_log in
-          List.iteri (fun i e -> if i >= !printed then
+          let emit_markers upto = 
+            let rec go () = match !markers with
+              | (p, txt) :: tl when p <= upto -> say txt; markers := tl; go ()
+              | _ -> () in go () in
+          List.iteri (fun i e -> if i >= !printed then begin
+                         emit_markers i;
                          (match e with
                           | EBuildStart _ | ERestart -> ()
                           | ECycleReported _ ->
                             let es = List.sort compare (List.map (fun (a, b) -> (int_of_n a, int_of_n b)) !graph) in
                             say (String.concat " " ("waitgraph" :: List.map (fun (a, b) -> Printf.sprintf "%d>%d" a b) es));
                             say (event_str e)
-                          | _ -> say (event_str e))) log;
+                          | _ -> say (event_str e)) end) log;
+          emit_markers max_int;
           printed := List.length log in
         let newengine () = current := !pending; st := irestart !usedb !st; started := true; flush_log () in
         List.iter (fun l ->
@@ -98,10 +105,11 @@ let () =
                 say (Printf.sprintf "build %d %s" !nbuild k);
                 let sched = List.fold_left (fun acc o -> if String.length o > 6 && String.sub o 0 6 = "sched=" then String.sub o 6 (String.length o - 6) else acc) "sync" opts in
                 let sync = (sched = "sync") in
-                let schedule = if sync then [] else schedule_of_trace tr !nbuild in
+                let (schedule, has_marks) = schedule_of_trace tr !nbuild in
+                let schedule = if sync then [] else schedule in
                 let rl k = match alookup !current k with Some (r, _) -> r | None -> default_rule in
                 let od k = match alookup !current k with Some (_, o) -> o | None -> [RReq; RSingle; RFollow] in
-                let res = ibuild rl (env_of !envl) mixF od (fun _ -> sync) (nat_of_int 100000) (nat_of_int 100000) !st (n_of_int (int_of_string k)) schedule in
+                let (res, marks) = ibuild rl (env_of !envl) mixF od (fun _ -> sync) (nat_of_int 100000) (nat_of_int 100000) !st (n_of_int (int_of_string k)) schedule in
                 (match res with
                  | RCycle (_, g, FcOutOfFuel) -> graph := g; say "MODEL-FINDCYCLE-OUT-OF-FUEL"
                  | RCycle (_, g, _) -> graph := g
@@ -109,6 +117,9 @@ let () =
                  | ROutOfFuel _ -> say "MODEL-OUT-OF-FUEL"
                  | RDone _ -> ());
                 st := final_state res;
+                if has_marks then
+                  markers := List.concat (List.mapi (fun i ((top, after), stt) ->
+                      (int_of_nat top, Printf.sprintf "iter %d" i) :: (match stt with StWait -> [(int_of_nat after, "wait")] | _ -> [])) marks);
                 flush_log ();
                 (match (!st).is_fault with Some c -> say ("MODEL-FAULT " ^ kstr c) | None -> ());
                 say ("epoch " ^ dec_of_n (!st).is_epoch);
